@@ -29,6 +29,7 @@ type c07Conn struct {
 	reads    int
 	written  int
 	readAfterClose bool
+	short    int
 }
 
 func (c *c07Conn) Read(b []byte) (int, error) {
@@ -40,6 +41,9 @@ func (c *c07Conn) Read(b []byte) (int, error) {
 	rem := len(c.stream) - c.pos
 	if rem == 0 {
 		return 0, io.EOF
+	}
+	if c07BigMode {
+		return c.readBig(b)
 	}
 	max := rem
 	if len(b) < max {
@@ -199,4 +203,96 @@ func VerifC07Boundary() {
 		vapi.Check(st == PackageError, "length prefix out of range is a protocol error")
 	}
 	vapi.Reach("c07-boundary")
+}
+
+// ---- reads that fill the whole 4096-byte receive buffer ----
+// The symbolic streams above are at most 10 bytes long, so a Read never fills the buffer. Here
+// the stream is two or three packets whose total length is within a few bytes of the buffer size
+// (packet lengths 2048+d, d in -2..2 chosen by the solver; payload bytes a fixed pattern except
+// 4 symbolic bytes after each length prefix), and every Read returns all that fits, except for at most two
+// short reads (one byte less, or 3 bytes) at any positions.
+
+var c07BigMode bool
+
+func (c *c07Conn) readBig(b []byte) (int, error) {
+	rem := len(c.stream) - c.pos
+	max := rem
+	if len(b) < max {
+		max = len(b)
+	}
+	n := max
+	if c.short < 2 {
+		// at most two short reads per stream (keeps the number of reads bounded)
+		switch vapi.Choice("bigchunk", 3) {
+		case 1:
+			if max > 1 {
+				n = max - 1
+				c.short++
+			}
+		case 2:
+			if max > 3 {
+				n = 3
+				c.short++
+			}
+		}
+	}
+	copy(b, c.stream[c.pos:c.pos+n])
+	c.pos += n
+	return n, nil
+}
+
+func c07BigStream() []byte {
+	np := 2 + vapi.Choice("extra", 2)
+	var stream []byte
+	for p := 0; p < np; p++ {
+		l := 2048
+		if p == 2 {
+			l = 8
+		}
+		d := vapi.U64("d", 8)
+		vapi.Assume(d <= 4)
+		l += int(vapi.Concrete(d)) - 2
+		pkt := make([]byte, l)
+		pkt[0], pkt[1], pkt[2], pkt[3] = byte(l>>24), byte(l>>16), byte(l>>8), byte(l)
+		for i := 4; i < l; i++ {
+			pkt[i] = byte(i*7 + p*31 + 3)
+		}
+		sym := vapi.Bytes("payload", 4)
+		copy(pkt[4:], sym)
+		stream = append(stream, pkt...)
+	}
+	protocol.SetMaxPackageLength(4200)
+	return stream
+}
+
+func VerifC07ServerBig() {
+	c07BigMode = true
+	stream := c07BigStream()
+	rec := &c07Rec{}
+	conn := &c07Conn{stream: stream}
+	cfg := &TarsServerConf{Proto: "tcp", Address: "10.0.0.2:1"}
+	ts := &TarsServer{protocol: &c07ServerProto{rec}, config: cfg}
+	h := &tcpHandler{config: cfg, server: ts}
+	h.recv(&connInfo{conn: conn})
+	want, _ := c07Ref(stream, 4200)
+	c07Compare(rec.pkgs, want, "server")
+	vapi.Check(conn.closed, "server: connection closed when the receive loop ends")
+	vapi.Reach("c07-server-big")
+}
+
+func VerifC07ClientBig() {
+	c07BigMode = true
+	stream := c07BigStream()
+	rec := &c07Rec{}
+	conn := &c07Conn{stream: stream}
+	cl := &TarsClient{protocol: &c07ClientProto{rec}, config: &TarsClientConf{Proto: "tcp"}}
+	c := &connection{client: cl, conn: conn}
+	cl.conn = c
+	done := make(chan bool, 1)
+	c.recv(conn, done)
+	vapi.Quiesce()
+	want, _ := c07Ref(stream, 4200)
+	c07Compare(rec.pkgs, want, "client")
+	vapi.Check(conn.closed && c.isClosed, "client: connection closed when the receive loop ends")
+	vapi.Reach("c07-client-big")
 }
